@@ -208,23 +208,69 @@ def run(chk):
         chk.ob("C12-R4", f"series._conversions.{name}[from flat]", ok, "start, flat data and factor come from _disaggregate_flat in that order", m.loc(h))
 
     chk.rule("C12-R5", "aggregate rejects a finer or unknown target, disaggregate a coarser or unknown one; equal frequency is a no-op", floor=4)
-    for q, wrong in (("Inlay.aggregate", ast.Gt), ("Inlay.disaggregate", ast.Lt)):
+    # by finite evaluation of the method heads with stand-in frequencies: for every (source, target) pair the call is a no-op (equal),
+    # rejected (wrong direction, or either UNKNOWN) or carried out with the period class of the target
+    import functools as _functools
+
+    @_functools.total_ordering
+    class _Fq(fin.FinObj):
+        def __init__(self, value, regular=True):
+            super().__init__(value=value, is_regular=regular)
+        def __eq__(self, o): return self is o
+        def __lt__(self, o): return self.value < o.value
+        def __hash__(self): return id(self)
+        def __repr__(self): return f"F{self.value}"
+    UNK, YEAR, QUART, MONTH, DAY = _Fq(-1, False), _Fq(1), _Fq(4), _Fq(12), _Fq(365, False)
+    classes = {YEAR: "YearlyClass", QUART: "QuarterlyClass", MONTH: "MonthlyClass", DAY: "DailyClass"}
+    for q, up in (("Inlay.aggregate", False), ("Inlay.disaggregate", True)):
         fn = m.func(q)
         chk.saw(m, q)
-        found_guard = found_noop = False
-        for n in walk_no_nested(fn):
-            if isinstance(n, ast.If):
-                tests = n.test.values if isinstance(n.test, ast.BoolOp) and isinstance(n.test.op, ast.Or) else [n.test]
-                for t in tests:
-                    if isinstance(t, ast.Compare) and unparse(t.left) == "target_freq" and unparse(t.comparators[0]) == "self.frequency":
-                        if isinstance(t.ops[0], wrong) and any(isinstance(b, ast.Raise) for b in n.body):
-                            unk = [unparse(x).replace(" ", "") for x in tests]
-                            found_guard = "target_freqis_dates.Frequency.UNKNOWN" in unk and "self.frequencyis_dates.Frequency.UNKNOWN" in unk
-                        if isinstance(t.ops[0], ast.Eq) and any(isinstance(b, ast.Return) for b in n.body):
-                            found_noop = True
-        chk.ob("C12-R5", f"series._conversions.{q}[direction guard]", found_guard,
-               "raises when the target is on the wrong side of the source frequency or either is UNKNOWN", m.loc(fn))
-        chk.ob("C12-R5", f"series._conversions.{q}[same frequency]", found_noop, "returns unchanged when the frequencies are equal", m.loc(fn))
+        bad_guard = bad_noop = None
+        n_ev = 0
+        try:
+            for src_f in (UNK, YEAR, QUART, MONTH, DAY):
+                for tgt_f in (UNK, YEAR, QUART, MONTH):
+                    if not up and src_f is DAY and tgt_f is not UNK and False:
+                        continue
+                    log = []
+                    me = fin.FinObj(frequency=src_f, _replace_start_and_values=lambda *a_, **k_: log.append(("replaced",) + a_))
+                    worker = lambda s_, cls_, *a_, **k_: (("START", cls_), "DATA", "EXTRA")
+                    env = dict(fin.module_constants(m))
+                    env.update({st_.name: fin.FuncRef(st_.name) for st_ in m.tree.body if isinstance(st_, ast.FunctionDef)})
+                    env.update({"_dates.Frequency.UNKNOWN": UNK, "_dates.Frequency.DAILY": DAY, "_dates.PERIOD_CLASS_FROM_FREQUENCY_RESOLUTION": classes,
+                                "_CHOOSE_DISAGGREGATION_METHOD": {"flat": worker}, "_AGGREGATION_METHOD_RESOLUTION": {"mean": "MEAN"},
+                                "_DEFAULT_METHOD": "mean", "_DEFAULT_DISCARD_MISSING": False})
+                    env.update({"_aggregate_regular_to_regular": (lambda s_, cls_, *a_, **k_: (("START", cls_), "DATA")),
+                                "_aggregate_daily_to_regular": (lambda s_, cls_, *a_, **k_: (("START", cls_), "DATA"))})
+                    funcs = {"_ft.partial": lambda *a_, **k_: ("partial",) + a_, "_aggregate_regular_to_regular": worker, "_aggregate_daily_to_regular": worker,
+                             "isinstance": lambda x_, t_: isinstance(x_, str), "str": str}
+                    args = {params(fn)[0]: me, params(fn)[1]: tgt_f}
+                    for p_, d_ in list(zip(reversed(params(fn)), reversed(fn.args.defaults))) + [(a_.arg, d_) for a_, d_ in zip(fn.args.kwonlyargs, fn.args.kw_defaults) if d_ is not None]:
+                        args.setdefault(p_, fin.ev(d_, {}))
+                    if fn.args.kwarg:
+                        args[fn.args.kwarg.arg] = {}
+                    try:
+                        fin.run_function(fn, args, funcs, env)
+                        outcome = "done" if log else "no-op"
+                    except fin.Raised:
+                        outcome = "rejected"
+                    n_ev += 1
+                    wrong_side = (tgt_f.value < src_f.value) if up else (tgt_f.value > src_f.value)
+                    want = "no-op" if tgt_f is src_f else "rejected" if (tgt_f is UNK or src_f is UNK or wrong_side) else "done"
+                    if outcome != want:
+                        msg = f"source {src_f!r}, target {tgt_f!r} (F-1 = UNKNOWN): the conversion is {outcome}, expected {want}"
+                        if want == "no-op":
+                            bad_noop = bad_noop or msg
+                        else:
+                            bad_guard = bad_guard or msg
+                    elif outcome == "done" and log[0][1] != ("START", classes[tgt_f]):
+                        bad_guard = bad_guard or f"source {src_f!r}, target {tgt_f!r}: the result is dated with {log[0][1]}, not with the period class of the target"
+        except (fin.NotFinite, TypeError, AttributeError, KeyError, IndexError) as ex:
+            chk.undecided("C12-R5", f"series._conversions.{q}[direction guard]", f"not finitely evaluable: {type(ex).__name__}: {ex}", m.loc(fn))
+            continue
+        chk.ob("C12-R5", f"series._conversions.{q}[direction guard]", bad_guard is None,
+               bad_guard or f"raises when the target is on the wrong side of the source frequency or either is UNKNOWN ({n_ev} pairs)", m.loc(fn), sure=True)
+        chk.ob("C12-R5", f"series._conversions.{q}[same frequency]", bad_noop is None, bad_noop or "returns unchanged when the frequencies are equal", m.loc(fn), sure=True)
 
     chk.rule("C12-R6", "every routine that groups by a constant factor a.value // b.value is reached only with both frequencies regular "
              "(is_regular guard or calendar-based dispatch in its caller)", floor=2)
